@@ -214,11 +214,9 @@ class mp_unknown (mptcp_opt):
     o = cls()
     o.type = buf[offset]
     length = buf[offset+1]
-    o.data = buf[offset+2:offset+2+length]
-    try:
-      self.subtype = (buf[offset+2] & 0xf0) >> 4
-    except:
-      pass
+    o.data = buf[offset+2:offset+length]
+    if length > 2:
+      o.subtype = (buf[offset+2] & 0xf0) >> 4
 
     return offset+length,o
 
